@@ -27,7 +27,12 @@ META = {
             "flush/close are compared with a real local file running the same program.  Plus [server handle seam] "
             "every sequence of <=3 (quick) / <=4 requests read(offset,len)/write(offset,data) over offsets "
             "{0,3,6,11} x lengths {2,3} on the real default SFTPHandle (plain and O_APPEND, buffered and unbuffered "
-            "file object) compared with positional-I/O semantics on a bytes model.",
+            "file object) compared with positional-I/O semantics on a bytes model.  Plus [payload size dimension] a "
+            "second BFS pass per write-capable mode {r+, w, w+, a, a+, x} x bufsize {-1, 7, 65536} (thorough: all six) "
+            "x pipelined off/on, depth 3 (thorough: 4 for those bufsizes) over writes of every size class relative "
+            "to one WRITE request (2 bytes < request, 8 = one request, 11 = two requests, 19 = three requests; "
+            "thorough also 16 = exactly two) and read(3)/read()/seek(SET,CUR,END)/tell/flush: a write or buffer flush "
+            "split into several requests must leave position, later reads and file bytes as on the local file.",
     "note": "SFTPFile.MAX_REQUEST_SIZE scaled to 8; close() is terminal; mutator return values (None) are not "
             "compared; 'x' is paramiko's documented O_EXCL flag (opened as 'wx' vs local 'x'); files are opened "
             "with 'b' on both sides; tell() is not compared in append mode (documented as possibly inaccurate) and "
@@ -54,6 +59,21 @@ def payloads():
 
 
 CONTENT, W1, W2 = payloads()
+REQ = 8     # SFTPFile.MAX_REQUEST_SIZE while the check runs (SP.scale(REQ) in main/replay)
+
+
+def size_payloads():
+    """Write payloads by size class relative to one WRITE request (REQ bytes): exactly one request, two
+    requests (last one short), three requests (last one short), exactly two requests.  All bytes distinct
+    from each other and from CONTENT/W1/W2 (seeded permutation), so a wrong offset is always visible."""
+    used = set(CONTENT + W1 + W2 + b"\n")
+    pool = [b for b in range(33, 127) if b not in used]
+    fl = core.filler(len(pool), 127)
+    seq = bytes(pool[i] for i in sorted(range(len(pool)), key=lambda i: (fl[i], i)))
+    return seq[:REQ], seq[REQ:2 * REQ + 3], seq[2 * REQ + 3:4 * REQ + 6], seq[4 * REQ + 6:6 * REQ + 6]
+
+
+WE, WB, WC, WD = size_payloads()
 
 
 def alphabet(tier):
@@ -65,6 +85,35 @@ def alphabet(tier):
     if tier != "quick":
         ops += [("read", 0), ("readlines",), ("seek", 2, 0)]
     return ops
+
+
+def size_alphabet(tier):
+    """[payload size dimension] writes of every size class relative to one WRITE request (smaller / equal /
+    two requests / three requests; thorough also exactly two requests) and the operations that observe the
+    position and the data after them."""
+    ops = [
+        ("write", W1), ("write", WE), ("write", WB), ("write", WC),
+        ("read", 3), ("read", None), ("seek", 0, 0), ("seek", 1, 1), ("seek", -1, 2),
+        ("tell",), ("flush",),
+    ]
+    if tier != "quick":
+        ops += [("write", WD)]
+    return ops
+
+
+SIZE_MODES = ["r+", "w", "w+", "a", "a+", "x"]     # the modes that can write
+SIZE_BUFSIZES_QUICK = [-1, 7, 65536]               # unbuffered, buffer < one request, buffer > every payload
+
+
+def size_configs(tier):
+    out = []
+    for mode in SIZE_MODES:
+        for bs in BUFSIZES:
+            for pipe in (False, True):
+                if tier == "quick" and bs not in SIZE_BUFSIZES_QUICK:
+                    continue
+                out.append((mode, bs, pipe))
+    return out
 
 
 def opname(op):
@@ -314,7 +363,23 @@ def classify(cfg, program, verdict):
     op = program[culprit]
     pre = sr.observed[culprit]
     post = sr.observed[culprit + 1] if culprit + 1 < len(sr.observed) else None
-    return "%s:%s:%s" % (component, opname(op), feature(cfg, op, pre, post, component)), culprit
+    key = "%s:%s:%s" % (component, opname(op), feature(cfg, op, pre, post, component))
+    return key + size_class(cfg, program, culprit), culprit
+
+
+def size_class(cfg, program, culprit):
+    """Minimal input class of a culprit write along the payload size dimension: if the culprit is a write of
+    at least one full request and the same program with every payload of at least one request replaced by the
+    2-byte one conforms, the divergence needs the size class and the key says so; otherwise (small writes
+    diverge too) the key is the one the small write gets."""
+    op = program[culprit]
+    if op[0] != "write" or len(op[1]) < REQ:
+        return ""
+    small = [("write", W1) if o[0] == "write" and len(o[1]) >= REQ else o for o in program]
+    ss, rs = run_sftp(cfg, small), run_ref(cfg, small)
+    if ss.outcome != "ok" or compare(cfg, small, ss, rs) is not None:
+        return ""
+    return ":write-spans-requests" if len(op[1]) > REQ else ":write-fills-one-request"
 
 
 # ----------------------------------------------------------------------------- BFS per configuration
@@ -334,8 +399,8 @@ def unjprog(j):
 
 
 def run_config(item, acc):
-    tier, cfg, depth = item
-    ops = alphabet(tier)
+    tier, cfg, depth, alpha = item
+    ops = size_alphabet(tier) if alpha == "sizes" else alphabet(tier)
     cache = {}
 
     class St:
@@ -391,7 +456,7 @@ def run_config(item, acc):
         return True
 
     # the open itself ('x' on an existing file must fail on both sides)
-    if cfg[0] == "x":
+    if cfg[0] == "x" and alpha != "sizes":
         sr = run_sftp(cfg, [], extra_file=True)
         rr = run_ref(cfg, [], extra_file=True)
         acc.ev()
@@ -411,11 +476,11 @@ def run_config(item, acc):
     res = bfs.bfs(build, enabled, canon, on_transition, depth)
     acc.states += res.states
     acc.transitions += res.transitions
-    acc.count("configs")
+    acc.count("configs" if alpha != "sizes" else "size_pass_configs")
     acc.count("frontier_left_at_depth_cap", res.frontier_left)
     acc.cmax("max_depth", res.max_depth)
     if len(acc.samples) < 5:
-        acc.sample({"config": {"mode": cfg[0], "bufsize": cfg[1], "pipelined": cfg[2]},
+        acc.sample({"config": {"mode": cfg[0], "bufsize": cfg[1], "pipelined": cfg[2]}, "alphabet": alpha,
                     "states": res.states, "transitions": res.transitions, "depth": res.max_depth})
     SP.remove_scratch()
 
@@ -505,7 +570,7 @@ def run_handle_item(item, acc):
 
 
 def main(tier):
-    SP.scale(8)
+    SP.scale(REQ)
     depth = 3 if tier == "quick" else 5
 
     def depth_of(cfg):
@@ -519,22 +584,38 @@ def main(tier):
         "handle offsets, reference content+position); transition = one file operation, executed by replaying "
         "the whole program on a fresh real client/server pair and on a real local file; every transition is "
         "validated against the implementation; nontrivial = distinct (configuration, sequence of returned "
-        "values/raises, final bytes) among conforming programs",
+        "values/raises, final bytes) among conforming programs; payload size dimension = a second pass whose "
+        "alphabet holds writes smaller than / equal to / spanning two / spanning three WRITE requests "
+        "(MAX_REQUEST_SIZE = 8) plus the position/data observers, on every write-capable mode",
         ["SFTPFile.MAX_REQUEST_SIZE = 8 (class-level configuration)",
          "sequential programs under the deterministic default schedule (client runs until it blocks, then server)",
          "server = real SFTPServer + default SFTPHandle.read/write over an unbuffered local file in /dev/shm; "
          "handle truncation via ftruncate (SFTPServer.set_file_attr belongs to C31)",
          "merged states have equal futures because the canon holds every mutable field of BufferedFile/SFTPFile "
          "used by the operations, the served bytes, SFTPHandle.__tell and the descriptor offset, and the reference "
-         "file's content and position; <=%d outstanding pipelined requests (the >100 branch is C29/C30)" % depth,
+         "file's content and position; <=%d outstanding pipelined requests (the >100 branch is C29/C30)"
+         % (depth * 3),
          "reference = real local file opened with the same mode and bufsize; in append modes the unbuffered local "
          "file (CPython's buffered append files track a position that ignores O_APPEND); tell() not compared in "
          "append mode (documented); 'x' = paramiko 'wx' vs local 'x'",
          "payload letters depend on VERIF_SEED, the line structure (xx\\nxx\\nxx) does not"])
-    items = [(tier, cfg, depth_of(cfg)) for cfg in configs(tier)]
+    items = [(tier, cfg, depth_of(cfg), "ops") for cfg in configs(tier)]
+
+    def size_depth_of(cfg):
+        # payload size pass: depth 3; thorough: depth 4 for the configurations of the quick size pass
+        if tier == "quick":
+            return 3
+        return 4 if cfg[1] in SIZE_BUFSIZES_QUICK else 3
+    sitems = [(tier, cfg, size_depth_of(cfg), "sizes") for cfg in size_configs(tier)]
+    items += sitems
     # heaviest (deepest, read/write) configurations first for load balance
     items.sort(key=lambda it: (-it[2], it[1][0] not in ("r+", "w+", "a+"), it[1][0]))
     ck.merge(core.pmap(items, run_config))
+    ck.extra["payload_size_pass"] = {
+        "request_size": REQ, "write_sizes": sorted({len(o[1]) for o in size_alphabet(tier) if o[0] == "write"}),
+        "alphabet": len(size_alphabet(tier)), "configs": len(sitems), "bufsizes": sorted({c[1][1] for c in sitems}),
+        "configs_by_depth": {str(d): sum(1 for it in sitems if it[2] == d) for d in sorted({it[2] for it in sitems})}}
+    items = [it for it in items if it[3] == "ops"]
     hdepth = 3 if tier == "quick" else 4
     hitems = [(tier, mode, variant, op, hdepth) for mode in ("r+", "a+") for variant in ("buffered", "unbuffered")
               for op in handle_ops()]
@@ -550,7 +631,7 @@ def main(tier):
 
 
 def replay(rec):
-    SP.scale(8)
+    SP.scale(REQ)
     if "handle" in rec["replay"]:
         h = rec["replay"]["handle"]
         seq = tuple((o[0], o[1], o[2].encode() if o[0] == "write" else o[2]) for o in h["sequence"])
